@@ -94,8 +94,8 @@ def main():
     m = {
      "version": 1,
      "setup_cmd": "./setup.sh",
-     "hooks": {"guard": "cargo feature verif-hooks (typify-impl, typify-macro); off by default",
-               "enable": "the adapter depends on typify-impl by path with features=[\"verif-hooks\"] when a check needs the hash-order shim (C12); all other checks use the public API of the unmodified build",
+     "hooks": {"guard": "none - no hook or instrumentation was added to /repo (no cfg flag, no cargo feature); every check drives the public API of the unmodified crates",
+               "enable": "nothing to enable: checks build /repo's working tree as it is (engine/adapter links typify-impl by path; C15 builds cargo-typify and expands the real macro). C12's hash-order leg controls std's RandomState from outside the repository through an LD_PRELOAD getrandom interposer (engine/hashseed/gr.c)",
                "baseline_off_cmd": "cd /repo && cargo test --workspace --no-fail-fast --offline",
                "source_commits": hooks_commits, "add_only": True},
      "engines": [
